@@ -174,8 +174,13 @@ func (p *Program) Cone(roots ...*ssa.Function) map[*ssa.Function]bool {
 		nd := p.CG.Nodes[fn]
 		if nd != nil {
 			for _, e := range nd.Out {
+				if isFuncValueCall(e.Site) {
+					// calls through stored function values (txn callbacks, handlers) are where VTA
+					// loses precision; closures are followed lexically via AnonFuncs instead
+					continue
+				}
 				c := e.Callee.Func
-				if !seen[c] && p.ModFns[c] {
+				if !seen[c] && p.ModFns[c] && !shellFunc(c) {
 					seen[c] = true
 					stack = append(stack, c)
 				}
@@ -230,6 +235,9 @@ func (p *Program) PathTo(root *ssa.Function, target func(*ssa.Function) bool) []
 		}
 		if nd := p.CG.Nodes[fn]; nd != nil {
 			for _, e := range nd.Out {
+				if isFuncValueCall(e.Site) || shellFunc(e.Callee.Func) {
+					continue
+				}
 				next(e.Callee.Func)
 			}
 		}
@@ -247,4 +255,47 @@ func (p *Program) Callers(fn *ssa.Function) []*callgraph.Edge {
 		return nd.In
 	}
 	return nil
+}
+
+// isFuncValueCall reports a dynamic call through a function-typed value (not an interface
+// method, not a static callee, not an immediately applied closure).
+func isFuncValueCall(site ssa.CallInstruction) bool {
+	if site == nil {
+		return false
+	}
+	c := site.Common()
+	if c.IsInvoke() {
+		return false
+	}
+	switch c.Value.(type) {
+	case *ssa.Function, *ssa.MakeClosure, *ssa.Builtin:
+		return false
+	}
+	return true
+}
+
+// shellPkgs are the outer shells of the module (client wrappers over HTTP/CLI/JS/C, test
+// harnesses, tools). They implement the same client interfaces as the engine, so interface calls
+// inside the engine resolve to them as well; a cone of engine behaviour never enters them.
+var shellPkgs = []string{"tests", "cli", "http", "js", "cbindings", "examples", "playground", "tools", "cmd", "docs", "client/mocks", "internal/datastore/mocks", "internal/db/fetcher/mocks"}
+
+func shellFunc(fn *ssa.Function) bool {
+	for fn.Parent() != nil {
+		fn = fn.Parent()
+	}
+	var path string
+	if fn.Pkg != nil {
+		path = fn.Pkg.Pkg.Path()
+	} else if o := fn.Object(); o != nil && o.Pkg() != nil {
+		path = o.Pkg().Path()
+	} else {
+		return false
+	}
+	sp := ShortPkg(path)
+	for _, s := range shellPkgs {
+		if sp == s || strings.HasPrefix(sp, s+"/") {
+			return true
+		}
+	}
+	return false
 }
